@@ -59,10 +59,12 @@ template <class Types> static void tiff_seeds(vh::Ctx& ctx)
     TIFFSetErrorHandler(tiff_quiet); TIFFSetWarningHandler(tiff_quiet);
     long allrect = ctx.B("allrect", 0);
     Opts o; o.devmask = int(ctx.B("devmask", 7));
-    struct Var { const char* n; bool tiled; int comp; long w, h; };
-    static const Var vars[] = {{"strip", false, COMPRESSION_NONE, 5, 4}, {"tile16", true, COMPRESSION_NONE, 5, 4},
-                               {"strip-lzw", false, COMPRESSION_LZW, 4, 3}, {"tile16-lzw", true, COMPRESSION_LZW, 9, 2},
-                               {"tile16", true, COMPRESSION_NONE, 18, 17}};      // 18x17: four tiles, partial at both edges
+    struct Var { const char* n; bool tiled; int comp; long w, h; int tw, th; };
+    static const Var vars[] = {{"strip", false, COMPRESSION_NONE, 5, 4, 16, 16}, {"tile16", true, COMPRESSION_NONE, 5, 4, 16, 16},
+                               {"strip-lzw", false, COMPRESSION_LZW, 4, 3, 16, 16}, {"tile16-lzw", true, COMPRESSION_LZW, 9, 2, 16, 16},
+                               {"tile16", true, COMPRESSION_NONE, 18, 17, 16, 16},      // 18x17: four tiles, partial at both edges
+                               {"tile32x16", true, COMPRESSION_NONE, 35, 18, 32, 16},   // tiles wider than long, two tile columns and rows
+                               {"tile16x32", true, COMPRESSION_NONE, 18, 35, 16, 32}};  // tiles longer than wide
     mp::mp_for_each<mp::mp_transform<mp::mp_identity, Types>>([&](auto Id) {
         using Img = typename decltype(Id)::type;
         for (auto const& v : vars)
@@ -72,15 +74,21 @@ template <class Types> static void tiff_seeds(vh::Ctx& ctx)
             ctx.cur = nm;
             gil::image_write_info<gil::tiff_tag> info;
             info._compression = v.comp;
-            if (v.tiled) { info._is_tiled = true; info._tile_width = 16; info._tile_length = 16; }
+            if (v.tiled) { info._is_tiled = true; info._tile_width = v.tw; info._tile_length = v.th; }
             std::vector<unsigned char> bytes = c13::gil_written<Img, gil::tiff_tag>(v.w, v.h, info);
             ioc::ScratchFile file("c13-" + nm, "tif", bytes);
             SeedView sv; sv.name = nm; sv.bytes = &bytes; sv.path = file.path;
             sv.file_bpp = chan_bits<Img>(); sv.aux1 = int(gil::num_channels<typename Img::view_t>::value);
             sv.subrects = (allrect && v.w * v.h <= 20) || (v.w <= 5 && v.h <= 4);
+            sv.sparse_subrects = !sv.subrects && v.tiled && v.w * v.h > 200;      // multi-tile seeds: every pixel, row and column
             sv.scan_expected = !v.tiled;      // documented: scanline_reader doesn't support tiled tiff images
             ++ctx.witness[v.tiled ? "tiff_tiled_seeds" : "tiff_strip_seeds"];
-            run_typed<Img>(ctx, sv, o);
+            {
+                // converting partial reads of tiled files are a listed finding (tiff read_and_convert_*): on the multi-tile seeds only the
+                // non-converting partial reads are enumerated, so that the listed id sets stay reviewable
+                auto o2 = o; if (sv.sparse_subrects) o2.conv_crops = false;
+                run_typed<Img>(ctx, sv, o2);
+            }
             if (ctx.timed_out()) return;
         }
     });
